@@ -408,8 +408,8 @@ def filter_step(ctx, case, src, cat, raw, base_keep, stmts_now, form, in_place, 
     return res, ok
 
 
-VARIANTS_SINGLE = ('str', 'str-twice', 'ctor-str', 'str-preview-then-apply', 'ctor-str-then-explicit')
-VARIANTS_LIST = ('list', 'tuple-reversed', 'one-by-one', 'twice', 'ctor', 'preview-then-apply', 'ctor-then-explicit', 'caller-list-reused')
+VARIANTS_SINGLE = ('str', 'str-twice', 'ctor-str', 'str-preview-then-apply', 'ctor-str-then-explicit', 'str-stale-statistics')
+VARIANTS_LIST = ('list', 'tuple-reversed', 'one-by-one', 'twice', 'ctor', 'preview-then-apply', 'ctor-then-explicit', 'caller-list-reused', 'stale-statistics')
 
 
 def run_scenario(ctx, events, stmts, variant, in_place):
@@ -477,6 +477,33 @@ def run_scenario(ctx, events, stmts, variant, in_place):
             ctx.fail('CSEPCatalog.filter[list]|callers-statement-list-modified|caller-list-history',
                      f'{w}: the list passed by the caller was {stmts}, after further in-place filtering of the returned catalogs it is {lst}', case)
         filter_step(ctx, case, src, start(), src.raw, every, lst, 'list', in_place, stmts, w + ' (same list object again)')
+    elif variant in ('stale-statistics', 'str-stale-statistics'):
+        # history: summary statistics were computed while the catalog held only events that satisfy the statements; then
+        # (a) new events are assigned (constructed with compute_stats=False, statistics requested once by hand), or
+        # (b) the rows of the event array are overwritten in place. The filter must see the CURRENT events.
+        from csep.core.catalogs import CSEPCatalog
+        form = 'str' if variant.startswith('str') else 'list'
+        if keep and len(keep) < len(src.events):
+            A = src.arr[keep].copy()
+            try:
+                cat = CSEPCatalog(data=A, compute_stats=False)
+                cat.update_catalog_stats()
+                str(cat)
+                cat.catalog = src.arr.copy()
+            except Exception as e:
+                ctx.fail(f'CSEPCatalog.catalog|{type(e).__name__}|stale-statistics', f'{w}: {type(e).__name__}: {e}', case)
+                return keep
+            filter_step(ctx, case, src, cat, src.raw, every, stmts, form, in_place, stmts, w + ' (events assigned after the statistics were taken)')
+            B = src.arr.copy()
+            B[:] = src.arr[keep[0]]
+            try:
+                cat = CSEPCatalog(data=B)
+                str(cat)
+                cat.catalog[:] = src.arr
+            except Exception as e:
+                ctx.fail(f'CSEPCatalog.catalog|{type(e).__name__}|stale-statistics', f'{w}: {type(e).__name__}: {e}', case)
+                return keep
+            filter_step(ctx, case, src, cat, src.raw, every, stmts, form, in_place, stmts, w + ' (event rows overwritten in place after construction)')
     elif variant == 'one-by-one':
         cat, raw, base = start(), src.raw, every
         for n, s in enumerate(stmts):
@@ -642,6 +669,17 @@ PROBE_EVENTS = [('p%d_%d' % (i + 1, j + 1), T0 + n, LAT_C[j + 1], LON_C[i + 1], 
 assert LAT_C[1:4] == LEVELS['latitude'] and LON_C[1:4] == LEVELS['longitude']
 
 
+# the same lattice moved across the antimeridian in the 0..360 longitude convention (origins 179.85, 179.95, 180.05)
+_WEST = dict(LON_C=LON_C, LON_O=LON_O, PROBE_EVENTS=PROBE_EVENTS)
+_EAST = dict(LON_C=[float(Decimal('179.9') + Decimal('0.1') * i) for i in range(-1, 4)],
+             LON_O=[float(Decimal('179.85') + Decimal('0.1') * i) for i in range(3)])
+_EAST['PROBE_EVENTS'] = [('p%d_%d' % (i + 1, j + 1), T0 + n, LAT_C[j + 1], _EAST['LON_C'][i + 1], 10.0, 5.0) for n, (i, j) in enumerate(PROBES)]
+
+
+def _use(east):
+    globals().update(_EAST if east else _WEST)
+
+
 def cells_of(bits):
     return [CELLS[k] for k in range(9) if bits >> k & 1]
 
@@ -673,8 +711,8 @@ def run_spatial_one(ctx, events, bits, maskbits, mode, in_place):
         mask = [maskbits >> k & 1 for k in range(9)]
         active = {c for c, m in zip(cells, mask) if m == 1}
     case = dict(kind='spatial1', events=[list(e) for e in events], bits=bits, maskbits=maskbits, mode=mode,
-                in_place=in_place)
-    cls = region_class(cells, mask)
+                in_place=in_place, east=(LON_O is _EAST['LON_O']))
+    cls = region_class(cells, mask) + (',longitudes-above-180' if case['east'] else '')
     site = 'CSEPCatalog.filter_spatial'
     src = get_src(events)
     region = make_region(cells, mask)
@@ -715,6 +753,14 @@ def spatial_catalogs():
 
 
 def run_spatial(ctx, case):
+    _use(case.get('east', False))
+    try:
+        return _run_spatial(ctx, case)
+    finally:
+        _use(False)
+
+
+def _run_spatial(ctx, case):
     cats = spatial_catalogs()
     items = [(b, None) for b in case.get('regions', [])] + [(None, m) for m in case.get('masks', [])]
     for bits, maskbits in items:
@@ -919,6 +965,12 @@ def _cases(tier, seed):
         yield dict(kind='spatial', regions=chunk)
     for chunk in space.chunks(range(0, 512), 8):
         yield dict(kind='spatial', masks=chunk)
+    # the same lattice across the antimeridian (0..360 convention): every 8th subset / mask (thorough: all)
+    st_ = 8 if quick else 1
+    for chunk in space.chunks(list(range(511, 0, -st_)), 8):
+        yield dict(kind='spatial', regions=chunk, east=True)
+    for chunk in space.chunks(list(range(511, -1, -st_)), 8):
+        yield dict(kind='spatial', masks=chunk, east=True)
     # E: load_catalog
     load_cats = [FULL] + [list(c) for c in space.sequences(range(len(EVENTS)), 1, 2 if quick else 3)]
     for chunk in space.chunks(load_cats, 2):
@@ -1033,8 +1085,10 @@ def run_case(case):
         note_case(ctx, get_src(ev), case['stmts'], keep)
         sample = case
     elif k == 'spatial1':
+        _use(case.get('east', False))
         run_spatial_one(ctx, [tuple(e) for e in case['events']], case['bits'], case['maskbits'], case['mode'],
                         case['in_place'])
+        _use(False)
         ctx.states += 1
         sample = case
     elif k == 'load1':
